@@ -28,7 +28,8 @@ def _worker(arg):
     try:
         res = mod.run_case(case)
     except CaseTimeout:
-        res = {"findings": [{"signature": "harness:timeout", "what": "case exceeded %ss" % case.get("_timeout", CASE_TIMEOUT),
+        res = {"findings": [{"signature": ("slow:" + str(case.get("kind"))) if case.get("kind") == "scale" else "harness:timeout",
+                             "what": "case exceeded %ss" % case.get("_timeout", CASE_TIMEOUT),
                              "replay": {"case": case}, "timeout": True}]}
     except Exception as e:  # noqa: BLE001  harness bug, not a property violation
         res = {"harness_error": "%s: %s\n%s" % (type(e).__name__, e, traceback.format_exc()[-1500:]), "case": case}
